@@ -152,7 +152,8 @@ func (f *File) RowContent() []string {
 	if f.currentRow == nil {
 		return []string{}
 	}
-	return f.currentRow.cells
+	// The CSV reader reuses the record slice across rows, so return a copy.
+	return append([]string{}, f.currentRow.cells...)
 }
 
 func (f *File) RowNumber() int {
